@@ -54,6 +54,34 @@ CHECKS = {
    text="Lean 4 theorems for all operands below p: the Montgomery evaluator returns circom's documented value for every operator (modular arithmetic, signed comparisons through truth tables and constants regenerated from graph.rs on every run, Idiv/Mod, masked shifts modelled at limb level and proved equal to division / masked multiplication by 2^n, bitwise operations with the conditional subtraction), results canonical, no crash, integer and Montgomery evaluators agree — outside three open findings whose negations are kernel-checked at witnesses (shift counts above p/2, unimplemented Pow/Id, the unreduced integer evaluator). Correspondence on the boundary grid.",
    note=TB + " Open findings C19-shift-count-above-half, C19-montgomery-unimplemented, C19-integer-evaluator.",
    design="§5 C19", technique="Lean 4 proof (operator semantics, limb-level shifts) + generated-table theorems + differential correspondence"),
+ "C05": dict(
+   text="Lean 4 theorems about the bundled witness graph, which a translator regenerates from graph.bin on every run (23 414 nodes, 5 844 signals, declared input layout): it is well-formed (kernel-evaluated), the input buffer has 46 cells, witness positions 0/4/5 are the constant and the public inputs; hence for EVERY 46-value assignment the evaluator returns a complete witness of canonical values, never crashes, is a function of the assignment and independent of the order of the named inputs (via the C20 and C19 theorems). The remaining link — that this graph computes the circuit's witness — is not a theorem: the complete 5 844-element vector of calculate_rln_witness is compared with the reference generator rln.wasm (node) and with the Lean evaluation of the regenerated graph on limb-boundary / near-modulus values in each input position, direction patterns, boundary ids and limits, and random assignments.",
+   note=TB + " Partial: graph = circuit is differential (rln.wasm under node is the oracle), DESIGN §9.",
+   design="§5 C05", technique="Lean 4 proof over a regenerated model (translator) + differential run against the reference circom generator", category="proof"),
+ "C11": dict(
+   text="Translator-fed Lean 4 theorems over a table regenerated from ffi.rs on every run (one row per extern \"C\" function: macro, RLN method, arguments in order, output pointer, C parameters): every function forwards exactly its own parameters, in API order, to the method of the same name, the sequential batch starts at the current leaf count, and the macros report success exactly on Ok with exactly the API's bytes / verdict. Behavioural identity is checked in lockstep: one instance driven through every exported C function, one through the Rust API, random call sequences incl. failing calls, proving with cross-verification, verification, recovery; flags, buffers read back through their pointers, verdicts and tree state compared after every call, and against model and specification.",
+   note=TB + " Pointer validity / leaks are runtime behaviour: buffers are read back through their pointers, nothing more.",
+   design="§5 C11", technique="Lean 4 theorems over a generated wiring table + lockstep differential correspondence"),
+ "C14": dict(
+   text="Lean 4 theorems about the model Keccak-256 -> ChaCha20 (rand_chacha layout) -> Fr::rand (limb masking, rejection, Montgomery reduction) -> Poseidon: every generated identity satisfies commitment = H(secret) (extended: secret = H(trapdoor, nullifier)) on canonical components with a unique 32-byte encoding; seeded generation is a function of the seed bytes; the extended identity's trapdoor is the plain identity's secret; the two documented reference seeds evaluate (in the kernel, Keccak included) to the documented secrets. Correspondence: the model reproduces protocol::*, RLN::* and ffi::* byte for byte on empty / block-boundary / long / random seeds, repeated and from 8 threads; unseeded identities are checked against the relations and for distinctness.",
+   note=TB + " Distinctness of identities for distinct seeds is collision resistance (sampled).",
+   design="§5 C14", technique="Lean 4 proof (model of the derivation chain, kernel-evaluated reference vectors) + differential correspondence"),
+ "C16": dict(
+   text="Lean 4 theorems about the persistent tree model over a key-value store with an injected failure schedule: along every history, reopening shows the same root, nodes, leaves, leaf count (whatever depth the caller passes) and metadata, and the reopened tree satisfies the refinement invariant again; with a failure armed at write k an operation that returns Ok did not reach it (every failed put / put_batch / flush surfaces as Err); whatever happens, stored leaves change only at addressed positions, so acknowledged updates are read back after a failed operation. Fault enumeration on the real code through hook H1: every write position k of every operation of generated histories, under five sled configurations, then reopen and compare with the model's exact prediction and with the last acknowledged values.",
+   note=TB + " Partial: what sled makes durable on a process kill is sled's behaviour (exercised via close/reopen only); the flag cache is not persisted (open finding under C15); two frame statements are proved in the corrected form the proof forced (sibling write-back, overshoot of the open C08 batch shapes).",
+   design="§5 C16", technique="Lean 4 proof (store model with failure schedule) + exhaustive fault-position enumeration against the model"),
+ "C17": dict(
+   text="Lean 4 theorem: for every history of single-leaf writes, appends and deletions the three tree backend models report the same roots, leaves, leaf counts and membership paths (each refines the ideal tree), and the common path is in the circuit's format; with C01/C02 (key material is a parameter of the SNARK contract) a message accepted under one configuration is accepted under the others. The hypothesis 'same key' and the real builds are discharged by execution: five builds (default, fullmerkletree, no-default/optimal, arkzkey, stateless) of one program against the current /repo; zkey vs arkzkey compared with == and by digest; histories replayed under every backend; messages cross-verified, incl. the stateless prover / verifier.",
+   note=TB + " Partial: key-file equality is a concrete-data check; the fullmerkletree configuration did not compile before the recorded fix.",
+   design="§5 C17", technique="Lean 4 proof (backends agree via refinement) + multi-configuration differential builds"),
+ "C18": dict(
+   text="Lean 4 theorems: pmtree's batch_recalculate task tree writes pairwise different keys and never reads a written key, so the sequential model's result equals a schedule-free value function and its final map is what ANY completion order of the writes produces; cell-wise vector fills (the witness map's cfg_iter_mut stages) do not depend on the visiting order; the database-open retry makes at most ten attempts, succeeds exactly when an attempt succeeds after only busy answers, and sleeps 10^k ms before attempt k+1. Execution: one workload under 1/2/4/16 rayon threads with bit-identical transcripts (and equal to model/spec), N threads issuing read-only calls on one shared instance against the sequential results with a watchdog, drop + re-create loops.",
+   note=TB + " Partial: absence of deadlock, lazy initialisation, sled's file lock and real timing are runtime behaviour (sampled).",
+   design="§5 C18", technique="Lean 4 proof (schedule independence, retry bound) + execution under varying worker pools"),
+ "C20": dict(
+   text="Lean 4 theorems for every graph and buffer: the single evaluation pass computes, for every node and output, the recursive reference interpretation; a well-formed graph never crashes and yields canonical values; named inputs land at their declared offsets and the buffer does not depend on the supply order (disjoint declared ranges); LEB128 lengths, the ten-byte look-ahead with its push-back stack, and the whole container framing round-trip for any message bodies; node <-> protobuf-node conversion round-trips. Correspondence: random DAGs over all supported node kinds with random layouts and shuffled inputs through graph::evaluate and through serialize -> deserialize -> calc_witness; containers written by the implementation are re-read and re-framed by the model.",
+   note=TB + " prost's per-message codec is a contract; open finding C20-inputs-size (inputs after the first run).",
+   design="§5 C20", technique="Lean 4 proof (evaluator = reference interpretation, framing round trip) + differential correspondence on random graphs"),
  "C15": dict(
    text="Lean 4 theorems: for every history, each backend model's list of empty positions equals the ideal tree's, which is characterised as the ascending positions below the high-water mark never written or last removed. The persistent backend's flag cache is not persisted (open finding C15-pm-reopen-flags, reported as KNOWN-FINDING); close/reopen histories are still compared with the model exactly. Correspondence: generated histories over every mutator with the empty list observed after every operation.",
    note=TB + " Open findings C15-pm-reopen-flags and (shared) C08-pm-batch.",
@@ -91,7 +119,7 @@ def main():
             "guard": "--cfg zerokit_verif",
             "enable": "RUSTFLAGS='--cfg zerokit_verif' (set by lib/core.py for every harness build)",
             "baseline_off_cmd": "cd /repo && cargo test --workspace --no-fail-fast --offline",
-            "source_commits": [],
+            "source_commits": ["cc4e957"],
             "add_only": True,
         },
         "engines": [{"name": "lean4-model+correspondence", "path": "/verif/lean, /verif/harness, /verif/check.py",
